@@ -42,15 +42,26 @@ def _queries(I):
 # ----------------------------------------------------------------------------------------------
 def shortcut_guard(rep, ex: Explorer):
     """general_inference returns True before calling _inference exactly under UNSAT(Q.A ∧ ¬Q.B); otherwise it
-    returns what _inference(query, weakly, deadline) returns."""
+    returns what _inference(query, weakly, deadline) returns - whether the mode is left to the state (weakly omitted) or
+    given by the caller."""
+    total = 0
+    for mode in (None, True, False):
+        total += _shortcut_guard(rep, ex, mode)
+    return total
+
+
+def _shortcut_guard(rep, ex: Explorer, mode):
     qual = f"{INF}.general_inference"
     site = fn_label(ex.prog, qual)
 
     def setup(I):
         s, es, bb = _self(I)
-        return [s, make_query()], {"deadline": Sym("deadline")}
+        kw = {"deadline": Sym("deadline")}
+        if mode is not None:
+            kw["weakly"] = Const(mode)
+        return [s, make_query()], kw
 
-    paths = ex.run(qual, setup, summaries=SUMMARIES, key="shortcut")
+    paths = ex.run(qual, setup, summaries=SUMMARIES, key=f"shortcut-{mode}")
     true_guards, n_del = [], 0
     # first pass: answers other than True that are given without the operator (positive evidence on their own)
     flagged = False
@@ -88,9 +99,9 @@ def shortcut_guard(rep, ex: Explorer):
                       extracted=repr(rv), required="value of _inference(query, weakly, deadline)", function=site)
             args = d.args
             ok = len(args) >= 4 and isinstance(args[1], ElemV) and args[1].var == QUERY and args[3] == Sym("deadline") and \
-                returned_bool(None, args[2]) == ("truthy", "weakly")
+                (returned_bool(None, args[2]) == ("truthy", "weakly") if mode is None else args[2] == Const(mode))
             rep.check(ok, "SHORTCUT.guard", site, "delegation arguments", "operator receives the query, the state's mode flag and the deadline",
-                      extracted=repr(args[1:]), required="(query, state.weakly, deadline)", function=site)
+                      extracted=repr(args[1:]), required="(query, state.weakly, deadline)" if mode is None else f"(query, {mode}, deadline)", function=site)
             # the operator is reached only when the shortcut does not apply
             okg, wit = F.guard_equiv(g, ("and", (g, ("sat", falsification(QUERY)))))
             rep.check(okg, "SHORTCUT.guard", site, "delegation guard", "operator is called only when A∧¬B is satisfiable",
